@@ -796,6 +796,10 @@ _SCOPE_VARS = {
 }
 
 
+# the regular expression Layout.ModelExt2.back_ends_okb was written against (fail closed when it changes)
+BACK_ENDS_RE = r'r"(?:\s*[a-z][a-z0-9_]*\s*(?:,\s*[a-z][a-z0-9_]*\s*)*,?)?\s*"'
+
+
 def attribute_tables():
     """Attribute type/scope tables by import + introspection of attribute_checker (fail closed)."""
     from compiler.front_end import attribute_checker as ac
@@ -819,7 +823,12 @@ def attribute_tables():
                 raise TranslatorError("string_from_list closure of %s not understood" % name)
             q = "(QOneOf [%s])" % "; ".join(coq_str(v) for v in vals)
         elif checker is ac._valid_back_ends:
-            q = "QUnmodelled"
+            # a string (else an error), then the regular expression the scanner back_ends_okb mirrors
+            import inspect as _inspect
+            vsrc = _inspect.getsource(ac._valid_back_ends)
+            if 'has_field("string_constant")' not in vsrc or BACK_ENDS_RE not in vsrc or vsrc.count("re.fullmatch") != 1:
+                raise TranslatorError("attribute_checker._valid_back_ends changed (Layout.ModelExt2.back_ends_okb mirrors %r)" % BACK_ENDS_RE)
+            q = "QString"
         else:
             raise TranslatorError("attribute type checker of %r not understood: %r" % (name, checker))
         types.append("(%s, %s)" % (coq_str(name), q))
@@ -1086,11 +1095,12 @@ class LayoutTranslator:
     def back_ends(self):
         """(declared, used): [expected_back_ends] (default "cpp") and every qualifier on an attribute of module 0."""
         declared = "cpp"
+        self.declared_raw = None
         for a in self.mod.attribute:
             if a.name.text == "expected_back_ends" and not a.is_default and not (a.back_end is not None and a.back_end.text):
-                if not a.value.has_field("string_constant"):
-                    raise OutOfModel("expected_back_ends-not-a-string")
-                declared = a.value.string_constant.text
+                # _gather_expected_back_ends: a non-string value (reported by _valid_back_ends) reads as ""
+                declared = a.value.string_constant.text if a.value.has_field("string_constant") else ""
+                self.declared_raw = declared if a.value.has_field("string_constant") else None
         declared = [x.strip() for x in declared.split(",") if x.strip()]
         used = []
 
@@ -1153,7 +1163,11 @@ class LayoutTranslator:
             vals = []
             for v in td.enumeration.value:
                 c = ir_util.constant_value(v.value)
-                if c is None or isinstance(c, bool):
+                if c is None:
+                    # not constant (a static reference to something that is not): skipped by
+                    # _check_that_enum_values_are_representable and by the is_signed default, reported as a static reference
+                    continue
+                if isinstance(c, bool):
                     raise OutOfModel("enum-value-not-an-integer-constant")
                 vals.append("(%s, %s)" % (coq_str(v.name.name.text), _z(c)))
             enums.append("(mk_enum %s %s %s [%s] %s [%s])" % (
@@ -1502,10 +1516,72 @@ class ExtTranslator:
         return term, dict(cpp_attrs=ncpp, req_sites=nreq, exprs=nex, imports=nimp, params=len(names))
 
 
+def _sref_collect(expression, out):
+    # as constraints._check_constancy_of_constant_references
+    if expression.which_expression == "constant_reference":
+        out.append(expression)
+
+
+class Ext2Translator:
+    """IR (after compute_constants, before normalize_and_verify) -> Layout.ModelExt2.ext_info2 term."""
+
+    def __init__(self, ir):
+        self.ir = ir
+
+    def srefs(self):
+        from compiler.util import traverse_ir
+        sites = []
+        traverse_ir.fast_traverse_ir_top_down(self.ir, [ir_data.Expression], _sref_collect, parameters={"out": sites})
+        out = []
+        for e in sites:
+            obj = ir_util.find_object(e.constant_reference.canonical_name, self.ir)
+            if isinstance(obj, ir_data.EnumValue):
+                out.append("(TgEnumValue %s)" % ("true" if ir_util.is_constant(obj.value) else "false"))
+            elif isinstance(obj, ir_data.Field) and ir_util.field_is_virtual(obj):
+                out.append("(TgVirtual %s)" % ("true" if ir_util.is_constant_type(obj.read_transform.type) else "false"))
+            else:
+                raise OutOfModel("static-reference-target-" + type(obj).__name__)
+        n = len(out)
+        uniq = []
+        for t in out:                # the verdict is a conjunction: equal entries once
+            if t not in uniq:
+                uniq.append(t)
+        return "[" + "; ".join(uniq) + "]", n
+
+    def decls(self):
+        out = []
+        for k, m in enumerate(self.ir.module):
+            lt = LayoutTranslator(self.ir, module_index=k)
+            _, used = lt.back_ends()
+            raw = lt.declared_raw
+            has_attr = any(a.name.text == "expected_back_ends" and not a.is_default and not (a.back_end is not None and a.back_end.text)
+                           for a in m.attribute)
+            if has_attr and raw is None:
+                raw = ""             # non-string value: rejected by the attribute table (QString); reads as ""
+            out.append("(mk_be_decl %s [%s])" % ("None" if raw is None else "(Some %s)" % coq_bytes(raw),
+                                                "; ".join(coq_str(x) for x in used)))
+        return "[" + "; ".join(out) + "]"
+
+    def translate(self):
+        sr, n = self.srefs()
+        return "(mk_ext2 %s\n  %s)" % (sr, self.decls()), dict(static_refs=n)
+
+
+def real_back_ends_verdict(text):
+    """(accepted?, expected qualifiers in split order) from attribute_checker._valid_back_ends / _gather_expected_back_ends."""
+    from compiler.front_end import attribute_checker as ac
+    loc = parser_types.SourceLocation(parser_types.SourcePosition(1, 1), parser_types.SourcePosition(1, 2 + len(text)))
+    attr = ir_data.Attribute(
+        name=ir_data.Word(text="expected_back_ends", source_location=loc),
+        value=ir_data.AttributeValue(string_constant=ir_data.String(text=text, source_location=loc), source_location=loc),
+        source_location=loc)
+    errs = ac._valid_back_ends(attr, "m.emb")
+    got = ac._gather_expected_back_ends(ir_data.Module(attribute=[attr]))["expected_back_ends"]
+    return (not errs), got
+
+
 # messages of checks inside normalize_and_verify / check_constraints that the Layout model does not mirror
-UNMODELLED_PREFIXES = (
-    "Static references must", "Attribute 'expected_back_ends'",
-)
+UNMODELLED_PREFIXES = ()
 
 
 def analyse_c14(args):
@@ -1568,7 +1644,7 @@ def _analyse_c14(args):
         out["layout"] = ("crash", _crash_plain(r1))
     elif st1 == "errors":
         lines = error_lines(r1)
-        modelled = [l for l in lines if not l[2].startswith(UNMODELLED_PREFIXES)]
+        modelled = [l for l in lines if not (UNMODELLED_PREFIXES and l[2].startswith(UNMODELLED_PREFIXES))]
         out["layout"] = ("reject", modelled) if modelled else ("unmodelled-reject", lines)
     else:
         out["layout"] = ("accept", [])
@@ -1577,6 +1653,9 @@ def _analyse_c14(args):
         lt = LayoutTranslator(ir)
         out["coq"] = lt.translate()
         out["ext"], out["ext_counts"] = ExtTranslator(ir, lt).translate()
+        out["ext2"], c2 = Ext2Translator(ir).translate()
+        out["ext_counts"].update(c2)
+        out["ext_counts"]["user_externals"] = len(lt.externals)
         # the byte orders the front end's own normalisation leaves on the fields (also when it then
         # reports errors): run the pass on a fresh IR and read the attributes back
         out["borders"] = None
@@ -1585,7 +1664,10 @@ def _analyse_c14(args):
             from compiler.front_end import attribute_checker
             try:
                 attribute_checker.normalize_and_verify(ir2)
-                normalised = any(a.name.text == "expected_back_ends" for a in ir2.module[0].attribute)
+                # normalisation ran iff check_attributes_in_ir found nothing: the prelude (which declares no
+                # expected_back_ends of its own) then carries the synthesized attribute
+                normalised = any(a.name.text == "expected_back_ends" for m in ir2.module if m.source_file_name == ""
+                                 for a in m.attribute)
             except Exception:
                 normalised = False
             if normalised:
